@@ -35,6 +35,15 @@ CHECKS += [
     },
 ]
 
+CHECKS += [
+    {
+        "property_id": "C08", "engine": "crosshair", "category": "model_checking",
+        "technique": "CrossHair symbolic execution (z3) of the real Circuit API with symbolic sizes, modes, herald positions, flags and (in)valid value indices",
+        "text": "20 conditions (quick) confirmed over all paths within the pre: bounds: adding a circuit (4 argument kinds, parents with/without an earlier heralded sub-circuit, any placement, both group flags, once or twice) leaves the argument's observable state unchanged; later edits of an added circuit leave the parent unchanged; copies are independent both ways; a + b keeps operands; each construction method (bs, ps, loss, barrier, mode_swaps, herald, add) that raises leaves the circuit exactly as it was.",
+        "design_ref": "DESIGN.md section 4 C08", "note": XH_NOTE,
+    },
+]
+
 _TODO = "check not built yet in this round; see DESIGN.md section 4 for the plan"
 NOT_APPLICABLE = [
     {"property_id": f"C{i:02d}", "reason": _TODO} for i in range(2, 20) if f"C{i:02d}" not in {c["property_id"] for c in CHECKS}
